@@ -12,9 +12,11 @@ printf "[net]\noffline = true\n[build]\ntarget-dir = \"$mx/target\"\n" > $mx/mc/
 cp /verif/known_findings.json $mx/verif/
 export BPPMC_VERIF_DIR=$mx/verif BPPMC_REPO_DIR=$mx/repo CARGO_NET_OFFLINE=true
 : > $out
-i=0
+i=0; j=0
 for d in /verif/seeded/C*/ /verif/seeded/own-*/; do
   [ -f $d/patch.diff ] || continue
+  # SAMPLE=3: only every third seed (in directory order) is considered at all
+  j=$((j+1)); if [ -n "$SAMPLE" ] && [ $((j % SAMPLE)) -ne 0 ]; then continue; fi
   i=$((i+1)); [ $((i % n)) -eq $k ] || continue
   sid=$(basename $d)
   cd $mx/repo || exit 2
